@@ -822,6 +822,12 @@ class SQLTranslator(ASTTranslator):
             subquery_ast = [ 'SELECT', [ 'ALL' ] + inner_expr, from_ast ]
             if translator.conditions:
                 subquery_ast.append([ 'WHERE' ] + translator.conditions)
+            if translator.groupby_monads:
+                group_by = [ 'GROUP_BY' ]
+                for m in translator.groupby_monads: group_by.extend(m.getsql())
+                subquery_ast.append(group_by)
+                if translator.having_conditions:
+                    subquery_ast.append([ 'HAVING' ] + translator.having_conditions)
             delete_where_ast = [ 'WHERE', [ 'IN', outer_expr, subquery_ast ] ]
             sql_ast = [ 'DELETE', None, delete_from_ast, delete_where_ast ]
         return sql_ast
